@@ -188,6 +188,24 @@ def items_hash(text):
 def functions(path):
     return {k: v[0] for k, v in functions_text(open(path, errors="replace").read()).items()}
 
+def in_impl(text):
+    """keys of the functions of `text` that are defined directly inside an `impl` block (methods and
+    trait-method implementations, as opposed to free functions and functions nested in them)"""
+    code, _ = mask(text)
+    starts = {a: key for key, a, b in spans(code)}
+    out, stack = set(), []
+    for i, ch in enumerate(code):
+        if i in starts and stack:
+            j = stack[-1]
+            k = max(code.rfind(";", 0, j), code.rfind("}", 0, j), code.rfind("{", 0, j))
+            if re.search(r"\bimpl\b", code[k + 1:j]):
+                out.add(starts[i])
+        if ch == "{":
+            stack.append(i)
+        elif ch == "}" and stack:
+            stack.pop()
+    return out
+
 def _pins(_cache={}):
     if "pins" not in _cache:
         try:
@@ -264,7 +282,18 @@ def diff():
         changed += extra[:n]
         added += extra[n:]
         removed += [name] * (len(pb) - n)
-    return {"changed": sorted(changed), "added": sorted(added), "removed": sorted(removed)}
+    # an ADDED function that sits directly in an impl block can override a default trait method
+    # (Iterator::nth, Integer::div_ceil, PartialOrd::lt ...) and so change behaviour without
+    # touching any existing body; such keys are reported separately
+    added_in_impl = []
+    if added:
+        for rel in sorted(set(k.split("::")[0] for k in added)):
+            try:
+                inside = in_impl(open(os.path.join(REPO, rel), errors="replace").read())
+            except OSError:
+                continue
+            added_in_impl += [k for k in added if k.startswith(rel + "::") and k.split("::", 1)[1] in inside]
+    return {"changed": sorted(changed), "added": sorted(added), "removed": sorted(removed), "added_in_impl": sorted(added_in_impl)}
 
 if __name__ == "__main__":
     if len(sys.argv) > 1 and sys.argv[1] == "pin":
